@@ -206,7 +206,13 @@ def _r_trailing(t, impl, expected):
     s = _p_string(t)
     if s is None or t[0] not in ("p_monthday", "p_yearmonth") or not (impl.startswith("ok") and expected.startswith("err")):
         return False
-    return "[" in s
+    if "[" not in s:
+        return False
+    # only the SHORT forms take this route: a year-month (`2020-04`, `202004`, `+002020-04`) or a month-day
+    # (`04-27`, `--04-27`, `0427`) in front of the first bracket - never a full date or date-time string
+    head = s.split("[", 1)[0]
+    return (_re.match(r"^\d{4}-?\d{2}$", head) is not None or _re.match(r"^[+\-\u2212]\d{6}-?\d{2}$", head) is not None
+            or _re.match(r"^(--)?\d{2}-?\d{2}$", head) is not None)
 
 
 @region("ixdtf-lowercase-zone-annotation")
